@@ -277,6 +277,21 @@ func buildEmbedded(c *xs.Ctx, b *builder) {
 		b.M(12)
 	}
 	b.Ms(6)
+	// two of the four sentinels are revoked (registry entries stay in storage, flagged): listings of the active ones are
+	// cut out of a registry that also holds inactive entries
+	for _, u := range []types.Address{u1, g.Pillar6.Address} {
+		b.call(u, types.SentinelContract, types.ZnnTokenStandard, big.NewInt(0), definition.ABISentinel.PackMethodPanic(definition.RevokeSentinelMethodName))
+	}
+	b.Ms(2)
+	revoked := 0
+	for _, s := range definition.GetAllSentinelInfo(b.n.Chain.GetFrontierAccountStore(types.SentinelContract).Storage()) {
+		if s.RevokeTimestamp != 0 {
+			revoked++
+		}
+	}
+	if revoked != 2 {
+		panic(fmt.Sprintf("harness: embedded chain: %d revoked sentinels, expected 2", revoked))
+	}
 	for _, u := range []types.Address{u1, u2, u3, u4, u5} {
 		b.receiveAll(u)
 	}
